@@ -71,8 +71,16 @@ def hStep : Handler := fun op j =>
       pure (cs.frKey ++ ";" ++ fcj ++ ";" ++ showRates (ratesDict (← getVars j "vars") rs (some subst) (some cs)))
   | "terms_rate" => do
       -- a reaction written as a string with (possibly repeated) terms: merged dictionaries, net stoichiometry, rate dict
-      let r ← asRxnTerms (← field j "terms")
+      let r0 ← asRxnTerms (← field j "terms")
+      let vars0 ← getVars j "vars"
+      -- quoted parameter in the line ('name'): a named rate constant
+      let ro : Option (Reaction String Rat) := match j.getObjVal? "param_key" with
+        | .ok (.str name) => (resolveParam vars0 (Param.key name)).map fun k => { r0 with param := k }
+        | _ => some r0
       let keys ← getStrList j "keys"
+      match ro with
+      | none => pure "KeyError"
+      | some r =>
       pure (";".intercalate [showNatDict r.reac, showNatDict r.prod, showNatDict r.inactReac, showNatDict r.inactProd,
         showIntList (netStoichTuple r keys), showRates (rateDict (← getVars j "vars") r keys)])
   | "law_rates" => do
